@@ -7,12 +7,133 @@ roles a forwarded command may be delivered to under each read strategy; invarian
 UnsupportedNeverForwarded, LocalNeverForwarded hold over the table.
 Every vector is replayed (lower / UPPER / MiXed case, three argument counts, three read strategies) through real
 Redis processors against a simulated cluster with two replicas per master; oracle: the per-node command logs.
+
+spec/redis/Route.tla (+ RouteGen, RouteWin): dispatch and routing decisions of CONCURRENT downstream sessions, one
+action per code section of handleRequest / chooseHost (Issue, Dispatch, Lookup, Store one candidate, Pick); invariants
+OnlySupportedReachBackends, WritesToOwningMaster, RoutedWithinOwnerFamily; constant SharedScratch (TRUE = candidates
+built in one array shared by all sessions) must violate RoutedWithinOwnerFamily; windows W_OverlapForeign,
+W_OverlapSame, W_WriteDuringRead, W_RejectDuringRouting must be reachable.  RouteGen behaviours (simulation, plus the
+mandatory stratum "every session reads, all shards differ" per layout) are run on real processors: each model session
+becomes several real connections that pipeline the session's requests (names drawn from the Commands vectors, all
+letter cases) - together where the behaviour overlaps decisions, one after the other where it does not; oracle: every
+command that ARRIVES at a node of the simulated cluster is judged by the behaviour's Allowed table (sub-command
+`c14-concurrent`), unsupported names must be answered with an error.
+Owned: spec/redis/Commands.tla, Route.tla, RouteGen.tla, RouteWin.tla, MC_Commands.cfg, *_Route_*.cfg;
+harness/cases/c14, harness/cmd/c14.
 """
+import concurrent.futures as cf
 import os
+import re
 
 import kit
 
 LEVEL = "model_checking"
+
+FOREIGN = "W_OverlapForeign"
+
+
+def route_model(ctx):
+    """Exhaustive runs of Route.tla: the design is clean, the shared-scratch variant yields its counterexample,
+    every window is reachable."""
+    jobs = [("Route", "MC_Route_fixed.cfg", None, True, True),
+            ("Route", "MC_Route_norep.cfg", None, True, False),
+            ("Route", "MC_Route_fixed_3s.cfg", None, True, False),
+            ("Route", "MC_Route_shared.cfg", ["RoutedWithinOwnerFamily"], False, False),
+            ("Route", "MC_Route_shared_3s.cfg", ["RoutedWithinOwnerFamily"], False, False)]
+    if ctx.thorough:
+        jobs.append(("Route", "MC_Route_fixed_3s_all.cfg", None, True, False))
+
+    def one(j):
+        mod, cfg, exp, count, cov = j
+        return j, ctx.mc("redis", mod, cfg, expect_violated=exp, count=count, workers=2, timeout=600, coverage=cov)
+
+    with cf.ThreadPoolExecutor(max_workers=3) as ex:
+        res = list(ex.map(one, jobs))
+    for (mod, cfg, exp, count, cov), r in res:
+        if cov and r.coverage:
+            ctx.check_vacuity(r, mod)
+        if exp and "WritesToOwningMaster" in r.violated:
+            raise kit.Inconclusive("%s: the shared-scratch variant must not touch the write path" % cfg)
+    r = ctx.tlc("redis", "RouteWin", "MC_Route_traps.cfg", workers=1, timeout=300)
+    if "@@UNREACHED" in r.stdout:
+        m = re.search(r'@@UNREACHED",\s*(.*?)>>', r.stdout, re.S)
+        raise kit.Inconclusive("vacuous model Route: windows never reached: %s" % " ".join((m.group(1) if m else "").split()))
+    if not r.ok:
+        raise kit.Inconclusive("window reachability run MC_Route_traps.cfg: %s" % (r.error or str(r.violated))[:500])
+
+
+def route_behaviours(ctx):
+    """RouteGen behaviours: free simulation + the mandatory stratum per layout."""
+    if ctx.thorough:
+        cfgs = [("Gen_Route_2x2.cfg", 600), ("Strata_Route_2x2.cfg", 60), ("Gen_Route_3x1.cfg", 600), ("Strata_Route_3x1.cfg", 60),
+                ("Gen_Route_2x1.cfg", 600), ("Strata_Route_2x1.cfg", 60), ("Gen_Route_2x0.cfg", 300), ("Strata_Route_2x0.cfg", 60)]
+    else:
+        cfgs = [("Gen_Route_2x2.cfg", 250), ("Strata_Route_2x2.cfg", 60), ("Gen_Route_3x1.cfg", 150), ("Strata_Route_3x1.cfg", 60)]
+
+    def one(c):
+        cfg, num = c
+        r = ctx.tlc("redis", "RouteGen", cfg, mode="sim", workers=1, sim_num=num, sim_depth=80, seed=ctx.seed,
+                    deadlock=False, timeout=300)
+        behs = [p for (tag, p) in r.prints if tag == "BEH"]
+        if r.timeout or r.violated or len(behs) < num // 2:
+            raise kit.Inconclusive("behaviour generation failed (%s): %d behaviours, %s" % (cfg, len(behs), (r.error or str(r.violated))[:500]))
+        return cfg, behs
+
+    out = []
+    with cf.ThreadPoolExecutor(max_workers=4) as ex:
+        for cfg, behs in ex.map(one, cfgs):
+            out.extend(behs)
+    layouts = sorted(set(re.search(r"_(\dx\d)\.cfg", c).group(1) for c, _ in cfgs))
+    return out, layouts
+
+
+def concurrent_sessions(ctx, vfile, generated):
+    behs, layouts = generated
+    bfile = os.path.join(ctx.work, "route-behaviours.ndjson")
+    kit.write_ndjson(bfile, behs)
+    cfile = os.path.join(ctx.work, "concurrent.ndjson")
+    args = ["c14-concurrent", "-in", bfile, "-cmds", vfile, "-out", cfile]
+    args += ["-burst", "400", "-fan", "4", "-heavy", "40"] if ctx.thorough else ["-burst", "150", "-fan", "4", "-heavy", "24"]
+    rc, so, se = ctx.harness(args, timeout=1500, allow_fail=True)
+    results = kit.read_ndjson(cfile) if os.path.exists(cfile) else []
+    stratum = {}   # (layout, strategy) -> commands that arrived in complete runs of the mandatory stratum
+    errs = []
+    for res in results:
+        mode = "concurrent-sessions" if res["concurrent"] else "sequential-sessions"
+        progs = sorted(",".join("%s:%s" % (q["sh"], q["kind"]) for q in p) for p in res["sessions"].values())
+        ctx.case(key=["route", res["layout"], res["strategy"], mode, progs], nontrivial=True, n=res["sent"])
+        what = "layout %s, strategy %s, sessions %s (%d connections, %d commands, windows %s)" % (
+            res["layout"], res["strategy"], " || ".join(progs), res["conns"], res["sent"], res.get("windows") or [])
+        classes = {}
+        for b in res.get("bad") or []:
+            classes.setdefault(b["class"], b["detail"])
+        for cls, detail in sorted(classes.items()):
+            ctx.violation("%s/%s" % (cls, mode), "%s: %d arrivals outside the allowed nodes, e.g. %s; moved counter +%d" % (
+                what, res["badCount"], detail, res.get("moved", 0)), res)
+        for b in res.get("badReplies") or []:
+            cls, _, detail = b.partition(": ")
+            ctx.violation("%s/%s" % (cls, mode), "%s: %s" % (what, detail), res)
+        if res.get("err"):
+            errs.append("%s: %s" % (what, res["err"]))
+        elif not res["badCount"] and not res.get("badReplies"):
+            ctx.cov["traces_validated_against_impl"] += res.get("behaviours", 1)
+        if res["concurrent"] and FOREIGN in (res.get("windows") or []) and not res.get("err") and res["replies"] == res["sent"] \
+                and all(q["kind"] == "read" for p in res["sessions"].values() for q in p):
+            k = (res["layout"], res["strategy"])
+            stratum[k] = stratum.get(k, 0) + res["arrivals"]
+        if len(ctx.cov["samples"]) < 6 and FOREIGN in (res.get("windows") or []):
+            ctx.sample({k: res[k] for k in ("layout", "strategy", "sessions", "windows", "conns", "sent", "arrivals", "perNode")})
+    if rc != 0:
+        raise kit.Inconclusive("harness c14-concurrent exited %d: %s" % (rc, (se or so)[-2000:]))
+    if len(errs) > max(2, len(results) // 10):
+        raise kit.Inconclusive("c14-concurrent: %d of %d runs incomplete, e.g. %s" % (len(errs), len(results), errs[0]))
+    for e in errs:
+        ctx.notes.append("incomplete run (not judged as a whole, arrivals judged): " + e)
+    # the mandatory stratum must have been exercised for every strategy on every layout, with real traffic
+    need = 4000
+    missing = ["%s/%s" % (l, s) for l in layouts for s in ("MASTER", "BOTH", "REPLICA") if stratum.get((l, s), 0) < need]
+    if missing:
+        raise kit.Inconclusive("mandatory stratum (concurrent reads of keys of different shards) not exercised: %s" % missing)
 
 
 def run(ctx):
@@ -20,7 +141,14 @@ def run(ctx):
     ctx.assumptions += [
         "RedisWrite/RedisReadOnly are transcribed from the Redis 5 command table (module constants), not from the code under test",
         "replica choice is clock based: read-only commands are repeated several times per strategy",
+        "the goroutine interleaving inside one routing decision is not forced (no pause point in chooseHost): overlapping decisions "
+        "of Route.tla behaviours are sampled by repetition (thousands of pipelined commands per connection, several connections per session)",
     ]
+    # the Route model runs and the behaviour generation go on while the vectors are replayed
+    bg = cf.ThreadPoolExecutor(max_workers=2)
+    f_model = bg.submit(route_model, ctx)
+    f_behs = bg.submit(route_behaviours, ctx)
+    bg.shutdown(wait=False)
     r = ctx.mc("redis", "Commands", "MC_Commands.cfg", workers=1, timeout=300)
     vecs = [p for (tag, p) in r.prints if tag == "VEC"]
     if len(vecs) < 150:
@@ -52,6 +180,9 @@ def run(ctx):
         ctx.case(key=["reassign", r["strategy"], r["phase"]], nontrivial=True, n=r["reads"])
         for b in r.get("bad") or []:
             ctx.violation("read-to-foreign-replica/%s/%s" % (r["phase"], r["strategy"]), b, r)
+    concurrent_sessions(ctx, vfile, f_behs.result())
+    f_model.result()
     ctx.cov["exhaustive"] = True
     ctx.cov["rule"] = ("one case per (name as sent, argument count, read strategy) for every name of the module's finite name space; "
-                       "all cases are non-trivial (each drives the real dispatch and routing code); exhaustive over the name space")
+                       "all cases are non-trivial (each drives the real dispatch and routing code); exhaustive over the name space; "
+                       "plus one case per (layout, strategy, concurrent / sequential, multiset of session programs) of the Route behaviours")
